@@ -67,7 +67,9 @@ def gen(rng, tier, index):
             ops.append(["foreign", kind, f"{nid};{cid};1;0;{rng.choice([0, 2])};1", rng.choice([0, 1])])
         elif roll < 0.88:
             ops.append(["set", nid, cid, rng.choice([0, 2, 24, 24]), rng.choice(["1", "0", "x y", "22", "28/09/2026", "a/b", "/", "http://x/y?z=1", "", "  12:30", "\tindented", " /",
-                                                                        "a text of more than twenty-five characters", "0123456789" * 6]), rng.choice([0, 1])])
+                                                                        "a text of more than twenty-five characters", "0123456789" * 6,
+                                                                        # MQTT payloads are opaque bytes: line boundaries inside them are data
+                                                                        "line one\nline two", "a\r\nb", "form\x0cfeed", "nel\x85x", "ls\u2028x"]), rng.choice([0, 1])])
         elif roll < 0.94:
             ops.append(["dup", f"{nid};{cid};1;1;24;dup", 1])
         else:
